@@ -21,6 +21,23 @@
 #include "mathops.h"
 #include "cpu_support.h"
 #include "mapping_matrix.h"
+#include "celt.h"
+#include "analysis.h"
+
+/* Link-time wrapper (-Wl,--wrap=run_analysis): records the lsb_depth the shared analysis is handed, so that the enc
+   search can compare it across the three entry points ("the three formats hand the shared core identical
+   arguments": OpusProps.C13.encode_formats_agree is about the model; this observes the code). */
+static int g_ra_calls, g_ra_depth;
+void __real_run_analysis(TonalityAnalysisState *analysis, const CELTMode *celt_mode, const void *analysis_pcm,
+                 int analysis_frame_size, int frame_size, int c1, int c2, int C, opus_int32 Fs,
+                 int lsb_depth, downmix_func downmix, AnalysisInfo *analysis_info);
+void __wrap_run_analysis(TonalityAnalysisState *analysis, const CELTMode *celt_mode, const void *analysis_pcm,
+                 int analysis_frame_size, int frame_size, int c1, int c2, int C, opus_int32 Fs,
+                 int lsb_depth, downmix_func downmix, AnalysisInfo *analysis_info)
+{
+   g_ra_calls++; g_ra_depth = lsb_depth;
+   __real_run_analysis(analysis, celt_mode, analysis_pcm, analysis_frame_size, frame_size, c1, c2, C, Fs, lsb_depth, downmix, analysis_info);
+}
 
 static uint32_t f2u(float f) { uint32_t u; memcpy(&u, &f, 4); return u; }
 static float u2f(uint32_t u) { float f; memcpy(&f, &u, 4); return f; }
@@ -241,9 +258,10 @@ static void gen_int16(vrng *r, opus_int16 *pcm, int n, int ch, int kind, double 
       case 2: v = amp * vsym(r); break;
       case 3: v = ((i / 37) & 3) ? 0.02 * amp * vsym(r) : amp * sin(ph[c] * 3); break;
       case 4: v = vchance(r, 50) ? 32767 : -32768; if (vchance(r, 30)) v = vrange(r, -3, 3); break;
+      case 6: v = floor(amp * sin(ph[c]) + 0.5 * amp * sin(ph[c] * 2.27) + .5) + vrange(r, -1, 1); break;   /* quiet tones; the only HF content is +-1 LSB of dither */
       default: v = 0;
       }
-      ph[c] += 0.03 + 0.011 * c;
+      ph[c] += (kind == 6 ? 0.0576 : 0.03) + 0.011 * c;
       if (v > 32767) v = 32767; if (v < -32768) v = -32768;
       pcm[i * ch + c] = (opus_int16)lrint(v);
    }
@@ -311,6 +329,13 @@ static void run_enc(uint64_t seed, long cases)
       if (expert) look = vchance(&r, 70) ? fsz * vrange(&r, 1, 2) : (vchance(&r, 50) ? vrange(&r, 1, fsz) : 0);
       bufsz = fsz + look;
       kind = vbelow(&r, 6); amp = vchance(&r, 30) ? 32767 : vrange(&r, 50, 30000); nframes = vrange(&r, 5, 12);
+      if (vchance(&r, 12)) {   /* LSB-noise profile: the analysis' noise floor / bandwidth detector depends on lsb_depth */
+         kind = 6; amp = vrange(&r, 100, 1500); nframes = vrange(&r, 25, 60); Fs = vchance(&r, 80) ? 48000 : 24000; cx = vrange(&r, 7, 10);
+         depth = vchance(&r, 70) ? 16 : vrange(&r, 12, 16); sig = OPUS_AUTO; dtx = 0; fec = 0;
+         if (app == OPUS_APPLICATION_RESTRICTED_LOWDELAY) app = OPUS_APPLICATION_AUDIO;
+         br = vchance(&r, 50) ? 32000 * ch : vrange(&r, 16000, 96000); vbr = 1;
+         if (!expert) { di = 3; } fsz = durs48[di] * (Fs / 1000) / 48; if (expert) look = fsz; bufsz = fsz + look;
+      }
       e16 = opus_encoder_create(Fs, ch, app, &err); e24 = opus_encoder_create(Fs, ch, app, &err); ef = opus_encoder_create(Fs, ch, app, &err);
       es[0] = e16; es[1] = e24; es[2] = ef;
       for (i = 0; i < 3; i++) {
@@ -335,9 +360,17 @@ static void run_enc(uint64_t seed, long cases)
       for (f = 0; f < nframes; f++) {
          int l16, l24, lf; opus_uint32 r16, r24, rf; const opus_int16 *p16 = s16 + (size_t)f * fsz * ch;
          for (i = 0; i < bufsz * ch; i++) { p24[i] = 256 * (opus_int32)p16[i]; pf[i] = (float)p16[i] / 32768.f; }
-         l16 = opus_encode(e16, p16, bufsz, k16, sizeof k16);
-         l24 = opus_encode24(e24, p24, bufsz, k24, sizeof k24);
-         lf = opus_encode_float(ef, pf, bufsz, kf, sizeof kf);
+         int ra[3][2];
+         g_ra_calls = 0; g_ra_depth = -1; l16 = opus_encode(e16, p16, bufsz, k16, sizeof k16); ra[0][0] = g_ra_calls; ra[0][1] = g_ra_depth;
+         g_ra_calls = 0; g_ra_depth = -1; l24 = opus_encode24(e24, p24, bufsz, k24, sizeof k24); ra[1][0] = g_ra_calls; ra[1][1] = g_ra_depth;
+         g_ra_calls = 0; g_ra_depth = -1; lf = opus_encode_float(ef, pf, bufsz, kf, sizeof kf); ra[2][0] = g_ra_calls; ra[2][1] = g_ra_depth;
+         if (ra[0][0] != ra[1][0] || ra[0][0] != ra[2][0] || ra[0][1] != ra[1][1] || ra[0][1] != ra[2][1]) {
+            snprintf(obs, sizeof obs, "frame %d: run_analysis calls %d/%d/%d with lsb_depth %d/%d/%d (opus_encode / opus_encode24 / opus_encode_float)",
+                     f, ra[0][0], ra[1][0], ra[2][0], ra[0][1], ra[1][1], ra[2][1]);
+            snprintf(exp, sizeof exp, "the signal analysis is handed the same lsb_depth (min(entry depth, OPUS_SET_LSB_DEPTH)) by all three entry points");
+            witness("enc-formats-analysis-depth", inp, exp, obs, "with lsb_depth<=16 the three entry points must hand the shared core identical arguments; here the analysis sees different sample depths for the same audio");
+            break;
+         }
          opus_encoder_ctl(e16, OPUS_GET_FINAL_RANGE(&r16)); opus_encoder_ctl(e24, OPUS_GET_FINAL_RANGE(&r24)); opus_encoder_ctl(ef, OPUS_GET_FINAL_RANGE(&rf));
          frames++; if (look) lookahead_frames++;
          if (l16 > 0) bytes += l16;
